@@ -13,7 +13,7 @@ UNOPS = {'Not', 'Neg', 'PtrMetadata'}
 
 class Fn:
     __slots__ = ('name', 'last', 'args', 'ret', 'blocks', 'locals', 'impl_span', 'impl_trait', 'impl_self',
-                 'text_hash', 'kind', 'crate', 'nlines')
+                 'text_hash', 'kind', 'crate', 'nlines', '_linked')
 
     def __repr__(self):
         return f'<Fn {self.name}>'
@@ -425,6 +425,7 @@ class Program:
 
     def add_text(self, text, crate, roots):
         self.src_roots = list(dict.fromkeys(self.src_roots + roots))
+        self._cur_roots = list(roots)
         lines = text.split('\n')
         i, n = 0, len(lines)
         while i < n:
@@ -439,6 +440,45 @@ class Program:
             if m:
                 self.consts[m.group(1)] = m.group(3)
             i += 1
+        self.link_closures()
+
+    def link_closures(self):
+        """several closures of one function can share one type string (macro-generated code: all spans are the
+        derive attribute).  They are told apart by order of appearance: the j-th closure created in the parent's
+        body (block order) is the parent's j-th `{closure#k}` with that type string."""
+        groups = {}
+        for f in self.fns:
+            if f.kind == 'fn' and '{closure#' in f.name and f.args:
+                mm = re.search(r'\{closure@[^{}]*\}', f.args[0][1])
+                if mm:
+                    parent = re.sub(r'::\{closure#\d+\}$', '', f.name)
+                    groups.setdefault((parent, mm.group(0)), []).append(f)
+        for (parent, tstr), fs in groups.items():
+            if len(fs) < 2: continue
+            fs.sort(key=lambda f: int(re.search(r'\{closure#(\d+)\}$', f.name).group(1)))
+            if getattr(fs[0], '_linked', False): continue
+            for j, f in enumerate(fs):
+                self.closures[tstr[:-1] + f'#{j}' + '}'] = f; f._linked = True
+            for pf in self.by_name.get(parent, []):
+                counter = [0]
+                def rw(x):
+                    if isinstance(x, str):
+                        if x == tstr or x == 'ZeroSized: ' + tstr:
+                            j = counter[0]; counter[0] += 1
+                            return x[:-1] + f'#{j}' + '}'
+                        return x
+                    if isinstance(x, tuple): return tuple(rw(y) for y in x)
+                    if isinstance(x, list): return [rw(y) for y in x]
+                    return x
+                for bb in sorted(pf.blocks, key=lambda b: int(b[2:])):
+                    st, term = pf.blocks[bb]
+                    st2 = []
+                    for t in st:
+                        if t[0] == 'assign': st2.append(('assign', t[1], rw(t[2])))
+                        else: st2.append(t)
+                    if term[0] == 'call':
+                        term = ('call', term[1], term[2], rw(term[3]), term[4])
+                    pf.blocks[bb] = (st2, term)
 
     def _add_item(self, head, body, crate):
         f = Fn(); f.crate = crate
@@ -474,9 +514,9 @@ class Program:
         mm = re.search(r'<impl at (.+?):(\d+):(\d+): (\d+):(\d+)>', f.name)
         if mm:
             f.impl_span = (mm.group(1), int(mm.group(2)), int(mm.group(3)), int(mm.group(4)), int(mm.group(5)))
-            f.impl_trait, f.impl_self = impl_header(f.impl_span, self.src_roots)
-            if (f.impl_self is None or f.impl_self.startswith('$')) and f.args:
-                f.impl_self = type_head(f.args[0][1])
+            f.impl_trait, f.impl_self = impl_header(f.impl_span, self._cur_roots)
+            if (f.impl_self is None or f.impl_self.startswith('$')):
+                f.impl_self = type_head(f.args[0][1]) if f.args else type_head(f.ret)
         nm = re.sub(r'<impl at [^>]*>', '<impl>', f.name)
         f.last = last_segment(nm)
         # locals + blocks
